@@ -114,3 +114,38 @@ func Decoder13(p *Pair, gens []Gen13) *ref.Decoder {
 
 	return d
 }
+
+var (
+	secretMu   sync.Mutex
+	secretSink map[string][][]byte
+)
+
+// CaptureSecrets13 records the named DTLS 1.3 key-schedule secrets reported through the verif
+// hook (kind -> secrets in order of derivation) until the returned function is called.
+func CaptureSecrets13() (get func() map[string][][]byte, stop func()) {
+	secretMu.Lock()
+	secretSink = map[string][][]byte{}
+	secretMu.Unlock()
+	state.VerifSecretHook = func(kind string, secret []byte) {
+		secretMu.Lock()
+		defer secretMu.Unlock()
+		if secretSink != nil {
+			secretSink[kind] = append(secretSink[kind], append([]byte(nil), secret...))
+		}
+	}
+
+	return func() map[string][][]byte {
+			secretMu.Lock()
+			defer secretMu.Unlock()
+			out := map[string][][]byte{}
+			for k, v := range secretSink {
+				out[k] = append([][]byte(nil), v...)
+			}
+
+			return out
+		}, func() {
+			secretMu.Lock()
+			secretSink = nil
+			secretMu.Unlock()
+		}
+}
